@@ -3,39 +3,14 @@
 problem: {"h", "w", "blocks": list of rooms, each a list of [y, x] in row-major order, rooms ordered by their least
 cell, "num": h x w grid of given numbers (0 = none)}; answer: the nested list of IntVars solve_nanro returns.
 
-cspuz/puzzle/nanro.py imports numpy at module level (only problem_to_pzv_url uses it) and numpy is not installed in
-/venv: the module is imported here once with an empty stand-in module named numpy, which is removed from sys.modules
-again right afterwards (nothing else sees it)."""
-import importlib
-import sys
-import types
-
+cspuz/puzzle/nanro.py needs numpy only in problem_to_pzv_url; since fix 'nanro imports numpy optionally' the module
+imports without it (before, solve_nanro could not be imported where numpy is missing: exhibited by this plug-in)."""
 import c11lib as L
 
 NAME = "nanro"
 MODULE = "cspuz.puzzle.nanro"
 FUNC = "solve_nanro"
 TIER1 = ("Nanro", "solve_nanro_model")
-
-
-def _import_with_numpy_stub():
-    if MODULE in sys.modules:
-        return
-    try:
-        importlib.import_module("numpy")
-        return
-    except Exception:  # noqa
-        pass
-    sys.modules["numpy"] = types.ModuleType("numpy")
-    try:
-        importlib.import_module(MODULE)
-    except Exception:  # noqa - run_recorded will report the import error
-        pass
-    finally:
-        sys.modules.pop("numpy", None)
-
-
-_import_with_numpy_stub()
 
 
 def call(mod, pb):
